@@ -328,6 +328,55 @@ def sweep_cases():
     return out
 
 
+# file-size boundaries: "every byte sequence given to readXML as a file" includes its SIZE.  Files whose sizes are
+# exactly k * 2^j (sector / page / 64 KiB / 2 MiB multiples) and +-1, with contents that make the parser run up to the
+# terminator (trailing blanks, an unterminated comment/value, unclosed text), each in a forked child so that a signal
+# (SIGBUS / SIGSEGV) is reported as a crash together with the size.  The expected result is known by construction.
+def size_cases():
+    sizes = {0}
+    for base, ks in ((512, (1, 2, 3)), (4096, (1, 2, 3, 4)), (65536, (1, 2))):
+        for k in ks:
+            for d in (-1, 0, 1):
+                sizes.add(base * k + d)
+    out = []
+    for n in sorted(sizes):
+        out.append(("blanks", n, b" " * n, "(- {} - [])"))
+        if n >= 16:
+            pre = b'<a k="v">t</a>'
+            out.append(("doc+blanks", n, pre + b"\n" * (n - len(pre)), "(- {} - [(61 {6b=76} 74 [])])"))
+            out.append(("doc+comment", n, b"<a/><!--" + b"c" * (n - 11) + b"-->", "(- {} - [(61 {} - [])])"))
+            out.append(("text", n, b"<a>" + b"x" * (n - 7) + b"</a>", "(- {} - [(61 {} %s [])])" % (b"x" * (n - 7)).hex()))
+            out.append(("unclosed_text", n, b"<a>" + b"x" * (n - 3), "(- {} - [(61 {} %s [])])" % (b"x" * (n - 3)).hex()))
+            out.append(("unterminated_value", n, b'<a b="' + b"v" * (n - 6), "THROW"))
+            out.append(("unterminated_comment", n, b"<a/><!--" + b"c" * (n - 8), "THROW"))
+    for n in (2 * 1024 * 1024 - 1, 2 * 1024 * 1024, 2 * 1024 * 1024 + 1):
+        out.append(("blanks", n, b" " * n, "(- {} - [])"))
+        out.append(("doc+blanks", n, b"<a/>" + b" " * (n - 4), "(- {} - [(61 {} - [])])"))
+    return out
+
+
+def size_boundary_check(ctx, exe, scratch):
+    cases = size_cases()
+    rc, o, err = ctx.run_exe(exe, [scratch, "fork"], stdin="\n".join(hx(b) for (_, _, b, _) in cases) + "\n", timeout=150)
+    got = o.split("\n")
+    bad = []
+    for i, (kind, n, b, want) in enumerate(cases):
+        g = got[i] if i < len(got) and got[i] else "<no output: harness died rc=%s>" % rc
+        if g != want and g != "SKIPPED":
+            bad.append((n, kind, g, want, b))
+    ctx.count(len(cases))
+    ctx.cov["file_size_boundaries"] = {"files": len(cases), "sizes": sorted({n for (_, n, _, _) in cases}), "failing": len(bad)}
+    for (n, kind, g, want, b) in sorted(bad, key=lambda x: x[0])[:3]:
+        sig = re.match(r"CRASH sig=(\d+)", g)
+        what = ("readXML is killed by signal %s" % sig.group(1)) if sig else (
+            ("readXML crashes (%s: %s)" % (g[:20], asan_summary(err)[:160])) if g.startswith("CRASH") else ("readXML answers %s" % g[:80]))
+        ctx.violation("%s on a file of exactly %d bytes (%s; %d of %d size-boundary files fail; failing sizes: %s)"
+                      % (what, n, kind, len(bad), len(cases), sorted({x[0] for x in bad})[:12]),
+                      {"file_size": n, "content_kind": kind, "input_hex": hx(b) if n <= 20000 else None,
+                       "input": (repr(b[:40]) + " ... " + repr(b[-20:])) if n > 60 else repr(b),
+                       "observed": g[:300], "required": want[:300], "stderr_tail": err[-1500:]})
+
+
 def load_corpus(ctx):
     p = os.path.join(ctx.verif, "corpus", "C16", "docs.txt")
     docs = []
@@ -716,6 +765,8 @@ def _run(ctx):
     except Exception as ex:                                       # noqa: BLE001
         import traceback
         ctx.broken.append("stage 'reader differential' raised %r: %s" % (ex, traceback.format_exc().strip().splitlines()[-2:]))
+    if not getattr(ctx, "replay", None):
+        stage(ctx, "file-size boundaries", lambda: size_boundary_check(ctx, exe, scratch))
     if wexe and not getattr(ctx, "replay", None):
         if time.time() - ctx.t0 > BUDGET_S:
             ctx.broken.append("wall-clock budget (%d s) used up before the writer differential: skipped" % BUDGET_S)
@@ -882,7 +933,8 @@ def reader_check(ctx, model, exe, scratch):
                 "comments, all white characters, trailing isspace characters; all inside wf_doc, the premise of parse_render) checked against "
                 "the extracted doc_of; a systematic sweep of every byte value 0x00..0xFF at each of 48 syntactic position classes (name start/continuation, "
                 "after '<' and '</', attribute name, around '=', inside both quote styles, after a backslash, text start/middle/end, comment, "
-                "header, between top-level nodes, file start/end); every truncation of 250 (thorough 2500) further rendered trees; every truncation and single-byte delete/insert/replace "
+                "header, between top-level nodes, file start/end); files of sizes exactly k*512, k*4096, k*65536, 2 MiB and +-1 (and the empty file) "
+                "whose content makes the parser reach the terminator, each in a forked child (signals reported with the size); every truncation of 250 (thorough 2500) further rendered trees; every truncation and single-byte delete/insert/replace "
                 "(alphabet < > / \" ' = ! - ? \\ NUL space letter VT) of the corpus documents; random bytes over that alphabet. "
                 "non-trivial = rendered tree with >= 2 nodes, or malformed file that still yields >= 2 nodes")
     for i in (0, 1):
